@@ -1,6 +1,7 @@
 package main
 
 import (
+	"go/constant"
 	"fmt"
 	"go/token"
 	"go/types"
@@ -490,4 +491,386 @@ func (p *Prog) withHelpers(fn *ssa.Function) []*ssa.Function {
 	}
 	rec(fn, 0)
 	return out
+}
+
+// DOM/gc-mark (C09, C08): the mark pass of the subscription collector. A node
+// that still has holders outside the released sub-graph, or that is reached
+// from such a node (a propagated keep), is marked kept — also when an earlier
+// visit along a to-be-deleted path already marked it for deletion — and the
+// keep is propagated to its references. Only a node already marked kept may
+// stop the traversal without that. Otherwise a subscription shared between a
+// released and a kept parent is disposed while the client still holds it (its
+// cache use is given back under a live client subscription).
+func ruleGCMark(c *Ctx) {
+	p := c.P
+	fn := p.Fn("(*server.wsConn).tryDelete")
+	trav := p.Method("server.Subscription.traverse")
+	gcT := p.Named("server.gcState")
+	if fn == nil || trav == nil || gcT == nil {
+		c.undecided("(*server.wsConn).tryDelete", "anchor", "-", "not found")
+		return
+	}
+	kKeep, kUnsend, kDelete := p.ConstInt("server.gcStateKeep", -1), p.ConstInt("server.gcStateUnsend", -1), p.ConstInt("server.gcStateDelete", -1)
+	nStates := kUnsend + 1
+	if kUnsend < kKeep {
+		nStates = kKeep + 1
+	}
+	isMarkField := func(f *types.Var) bool {
+		return f != nil && types.Identical(f.Type(), gcT)
+	}
+	indName := "indirect"
+	sfInd := p.Field("server.Subscription.indirect")
+	if sfInd != nil {
+		indName = sfInd.Name()
+	}
+	isHolders := func(f *types.Var) bool {
+		return f != nil && f != sfInd && f.Pkg() != nil && f.Pkg().Name() == "server" && strings.EqualFold(f.Name(), indName)
+	}
+	var visitors []*ssa.Function
+	for _, g := range p.withHelpers(fn) {
+		for _, call := range callsIn(g) {
+			if _, ok := isCallTo(call, trav); ok {
+				if mc, ok := stripConv(callArgs(call.Common())[2]).(*ssa.MakeClosure); ok {
+					visitors = append(visitors, mc.Fn.(*ssa.Function))
+				}
+			}
+		}
+	}
+	n := 0
+	for _, v := range visitors {
+		marks := false
+		for _, g := range p.withHelpers(v) {
+			for _, in := range instrsOf(g) {
+				if st, ok := in.(*ssa.Store); ok {
+					if fa, ok := st.Addr.(*ssa.FieldAddr); ok && isMarkField(fieldOfAddr(fa)) {
+						if k, isC := constInt(st.Val); isC && k == kKeep {
+							marks = true
+						}
+					}
+				}
+			}
+		}
+		if !marks {
+			continue
+		}
+		n++
+		c.inst(1)
+		var stateParam *ssa.Parameter
+		for _, prm := range v.Params {
+			if types.Identical(prm.Type(), gcT) {
+				stateParam = prm
+			}
+		}
+		setNote := func(set map[int64]bool) string {
+			var ss []string
+			for k := int64(0); k < nStates; k++ {
+				if set[k] {
+					ss = append(ss, fmt.Sprint(k))
+				}
+			}
+			return strings.Join(ss, ",")
+		}
+		sp := &Spec{InlineHelpers: true}
+		sp.Classify = func(t *Tracer, fr *Frame, in ssa.Instruction) []Ev {
+			switch x := in.(type) {
+			case *ssa.Store:
+				if fa, ok := x.Addr.(*ssa.FieldAddr); ok && isMarkField(fieldOfAddr(fa)) {
+					if k, isC := constInt(t.Resolve(fr, x.Val).V); isC {
+						return []Ev{{Kind: fmt.Sprintf("mark=%d", k)}}
+					}
+					return []Ev{{Kind: "mark=?"}}
+				}
+			case *ssa.Return:
+				if fr == t.RootFr && len(x.Results) == 1 {
+					if k, isC := constInt(t.Resolve(fr, x.Results[0]).V); isC {
+						return []Ev{{Kind: fmt.Sprintf("return=%d", k)}}
+					}
+					return []Ev{{Kind: "return=?"}}
+				}
+			}
+			return nil
+		}
+		sp.Branch = func(t *Tracer, fr *Frame, i *ssa.If, dir bool) []Ev {
+			cond, d := ssa.Value(i.Cond), dir
+			if pv, flip := t.P.predicateView(i); pv != nil {
+				cond = pv.Cond
+				if flip {
+					d = !d
+				}
+			}
+			x, op, k, ok := cmpConst(cond)
+			if !ok {
+				return nil
+			}
+			if f, _ := fieldLoad(x); f != nil {
+				switch {
+				case isMarkField(f):
+					return []Ev{{Kind: "markset", Note: setNote(satisfying(op, k, d, nStates))}}
+				case isHolders(f):
+					set := satisfying(op, k, d, 4)
+					if len(set) == 1 && set[0] {
+						return []Ev{{Kind: "not-held"}}
+					}
+					return nil
+				}
+			}
+			if rv := t.Resolve(fr, x); rv.V == ssa.Value(stateParam) && stateParam != nil {
+				return []Ev{{Kind: "inset", Note: setNote(satisfying(op, k, d, nStates))}}
+			}
+			return nil
+		}
+		tr := runTrace(p, v, sp)
+		bad := ""
+		has := func(note string, k int64) bool {
+			for _, s := range strings.Split(note, ",") {
+				if s == fmt.Sprint(k) {
+					return true
+				}
+			}
+			return false
+		}
+		for _, path := range tr.Paths {
+			kept := map[int64]bool{}
+			for k := int64(0); k < nStates; k++ {
+				kept[k] = true
+			}
+			inKeepPossible, notHeld, marksKeep, marksDelete, retKeep, stored := true, false, false, false, false, false
+			for _, e := range path {
+				switch {
+				case e.Kind == "markset" && !stored:
+					for k := range kept {
+						if !has(e.Note, k) {
+							delete(kept, k)
+						}
+					}
+				case e.Kind == "inset":
+					if !has(e.Note, kKeep) {
+						inKeepPossible = false
+					}
+				case e.Kind == "not-held":
+					notHeld = true
+				case strings.HasPrefix(e.Kind, "mark="):
+					stored = true
+					switch e.Kind {
+					case fmt.Sprintf("mark=%d", kKeep), fmt.Sprintf("mark=%d", kUnsend):
+						marksKeep = true
+					case fmt.Sprintf("mark=%d", kDelete):
+						marksDelete = true
+					}
+				case e.Kind == fmt.Sprintf("return=%d", kKeep):
+					retKeep = true
+				}
+			}
+			alreadyKept := len(kept) > 0
+			for k := range kept {
+				if k != kKeep && k != kUnsend {
+					alreadyKept = false
+				}
+			}
+			free := notHeld && !inKeepPossible
+			switch {
+			case marksDelete && !free:
+				bad = "a node is marked for deletion on a path that has not established that it has no holder left and is not reached from a kept node: " + tr.FmtPath(path)
+			case marksKeep && !retKeep:
+				bad = "a node is marked kept without propagating the keep to its references: " + tr.FmtPath(path)
+			case !alreadyKept && !free && !marksKeep:
+				bad = "a path leaves a node that may still be held (or is reached from a kept node) without marking it kept — an earlier deletion mark stays, the shared subscription is disposed under a live client subscription: " + tr.FmtPath(path)
+			}
+		}
+		if tr.Trunc {
+			bad = "path budget exhausted"
+		}
+		c.check(bad == "", fnName(v), "a node that is held or reached from a kept node is marked kept (also over an earlier deletion mark) and propagates the keep", p.Pos(v.Pos()), fmt.Sprintf("%d paths", len(tr.Paths)), bad)
+	}
+	if n == 0 {
+		c.viol(fnName(fn), "mark visitor of the collector found", p.Pos(fn.Pos()), "no traverse visitor stores a keep mark")
+	}
+}
+
+// TABLE/rid-split (C14): the validator of resource ids (codec.IsValidRID)
+// validates the characters up to the FIRST '?' and leaves everything behind it
+// — the query — unchecked. The splitter that cuts a resource id into the
+// resource name (which becomes the subject) and the query must cut at that
+// same first '?'. A cut anywhere else (the last '?') leaves unchecked bytes,
+// among them '?' itself, in the name and so in the subject. Accepted idioms:
+// the index of strings.IndexByte/Index/IndexRune/IndexAny, strings.Cut,
+// strings.SplitN(…, 2), and an ascending scan that stops at the first '?'.
+func ruleRIDSplit(c *Ctx) {
+	p := c.P
+	fn := p.Fn("server.parseRID")
+	if fn == nil {
+		c.undecided("server.parseRID", "anchor", "-", "not found")
+		return
+	}
+	c.inst(1)
+	isQ := func(v ssa.Value) bool {
+		v = stripConv(v)
+		if k, ok := v.(*ssa.Const); ok && k.Value != nil {
+			if k.Value.Kind() == constant.String {
+				return constant.StringVal(k.Value) == "?"
+			}
+			if n, exact := constant.Int64Val(constant.ToInt(k.Value)); exact {
+				return n == '?'
+			}
+		}
+		return false
+	}
+	var firstIdx func(v ssa.Value, depth int) (bool, string)
+	firstIdx = func(v ssa.Value, depth int) (bool, string) {
+		if depth > 6 {
+			return false, "too deep"
+		}
+		switch x := v.(type) {
+		case *ssa.Call:
+			nm := calleeName(&x.Call)
+			switch nm {
+			case "strings.IndexByte", "strings.Index", "strings.IndexRune", "strings.IndexAny":
+				if isQ(x.Call.Args[1]) {
+					return true, nm
+				}
+				return false, nm + " of something else than '?'"
+			}
+			if sf := x.Call.StaticCallee(); sf != nil && p.isRepoFn(sf) && len(sf.Blocks) > 0 {
+				ok, why := true, ""
+				n := 0
+				for _, in := range instrsOf(sf) {
+					if r, isR := in.(*ssa.Return); isR && len(r.Results) == 1 {
+						n++
+						if k, isC := constInt(r.Results[0]); isC && k < 0 {
+							continue
+						}
+						if o, w := firstIdx(r.Results[0], depth+1); !o {
+							ok, why = false, w
+						}
+					}
+				}
+				return ok && n > 0, why
+			}
+			return false, "index computed by " + nm
+		case *ssa.Phi:
+			// ascending scan: 0, i+1
+			asc := true
+			for _, e := range x.Edges {
+				if k, isC := constInt(e); isC && k == 0 {
+					continue
+				}
+				if b, isB := e.(*ssa.BinOp); isB && b.Op == token.ADD && b.X == ssa.Value(x) {
+					if k, isC := constInt(b.Y); isC && k == 1 {
+						continue
+					}
+				}
+				asc = false
+			}
+			if asc {
+				return true, "ascending scan"
+			}
+			ok := true
+			why := ""
+			for _, e := range x.Edges {
+				if o, w := firstIdx(e, depth+1); !o {
+					ok, why = false, w
+				}
+			}
+			return ok, why
+		case *ssa.Extract:
+			if nx, ok := x.Tuple.(*ssa.Next); ok && x.Index == 1 {
+				_ = nx
+				return true, "range scan"
+			}
+		}
+		return false, fmt.Sprintf("cut position is %s", v.String())
+	}
+	var nameOK func(v ssa.Value, depth int) (bool, string)
+	nameOK = func(v ssa.Value, depth int) (bool, string) {
+		v = stripConv(v)
+		if depth > 6 {
+			return false, "too deep"
+		}
+		switch x := v.(type) {
+		case *ssa.Parameter:
+			return true, "whole id"
+		case *ssa.Slice:
+			if x.Low != nil {
+				if k, isC := constInt(x.Low); !isC || k != 0 {
+					return false, "the name does not start at the beginning of the id"
+				}
+			}
+			if x.High == nil {
+				return nameOK(x.X, depth+1)
+			}
+			ok, why := firstIdx(x.High, 0)
+			if !ok {
+				return false, why
+			}
+			if strings.Contains(why, "scan") {
+				// the scan position must be tested for '?'
+				g := p.guardedBy(x, func(i *ssa.If) (bool, bool) {
+					b, isB := i.Cond.(*ssa.BinOp)
+					if !isB || (b.Op != token.EQL && b.Op != token.NEQ) {
+						return false, false
+					}
+					if isQ(b.Y) || isQ(b.X) {
+						return b.Op == token.EQL, true
+					}
+					return false, false
+				})
+				if g == nil {
+					return false, "scan position not tested for '?'"
+				}
+			}
+			return true, why
+		case *ssa.Phi:
+			for _, e := range x.Edges {
+				if o, w := nameOK(e, depth+1); !o {
+					return false, w
+				}
+			}
+			return true, "merge"
+		case *ssa.Extract:
+			if cl, ok := x.Tuple.(*ssa.Call); ok && calleeName(&cl.Call) == "strings.Cut" && x.Index == 0 && isQ(cl.Call.Args[1]) {
+				return true, "strings.Cut"
+			}
+		case *ssa.UnOp:
+			// SplitN(rid, "?", 2)[0]
+			if ia, ok := x.X.(*ssa.IndexAddr); ok && x.Op == token.MUL {
+				if k, isC := constInt(ia.Index); isC && k == 0 {
+					if cl, ok := ia.X.(*ssa.Call); ok && calleeName(&cl.Call) == "strings.SplitN" && isQ(cl.Call.Args[1]) {
+						if n, isC := constInt(cl.Call.Args[2]); isC && n == 2 {
+							return true, "strings.SplitN(…, 2)"
+						}
+					}
+				}
+			}
+		case *ssa.Call:
+			if sf := x.Call.StaticCallee(); sf != nil && p.isRepoFn(sf) && len(sf.Blocks) > 0 {
+				for _, in := range instrsOf(sf) {
+					if r, isR := in.(*ssa.Return); isR && len(r.Results) >= 1 {
+						if o, w := nameOK(r.Results[0], depth+1); !o {
+							return false, w
+						}
+					}
+				}
+				return true, "helper"
+			}
+		}
+		return false, fmt.Sprintf("name is %s", v.String())
+	}
+	bad, how := "", ""
+	n := 0
+	for _, in := range instrsOf(fn) {
+		r, ok := in.(*ssa.Return)
+		if !ok || len(r.Results) < 1 {
+			continue
+		}
+		n++
+		if o, w := nameOK(r.Results[0], 0); !o {
+			bad = "the resource name is not the part of the id before its first '?' (" + w + "): the validator leaves everything behind the first '?' unchecked, so unchecked bytes — '?' among them — reach the subject"
+		} else {
+			how += w + "; "
+		}
+	}
+	if n == 0 {
+		bad = "no return found"
+	}
+	c.check(bad == "", fnName(fn), "the resource name is cut at the first '?' of the id, the place up to which the validator checks", p.Pos(fn.Pos()), how, bad)
 }
